@@ -335,6 +335,17 @@ class VN:
             return T.real(base)
         if e.attr in ("imag",) and isinstance(base, T.Poly):
             return T.imag(base)
+        if e.attr == "ndim" and isinstance(base, T.Poly):
+            ba_ = base.single_atom()
+            if ba_ is not None and ba_[0] == "app" and ba_[1] == "fn:sigpy.util.resize":
+                # util.resize returns an array of shape oshape (rule X1 of C09): its rank is len(oshape)
+                for x_ in ba_[2]:
+                    kv = T.dec(x_)
+                    ka = kv.single_atom() if isinstance(kv, T.Poly) else None
+                    if ka is not None and ka[0] == "app" and ka[1] == "kw:oshape":
+                        n_ = seq_len(T.dec(ka[2][0]))
+                        if n_ is not None:
+                            return n_
         if e.attr in ("shape", "ndim", "size", "dtype"):
             if e.attr == "shape" and is_tuple(base):
                 return T.app("shape", base, real=True)
@@ -614,6 +625,10 @@ class VN:
                 if i is not None and -len(base) <= i < len(base):
                     return base[i]
         idx = self._as_term(self.ev(sl, st))
+        if isinstance(base, T.Poly) and isinstance(idx, T.Poly) and idx.as_fraction() == 0:
+            ba0 = base.single_atom()
+            if ba0 is not None and ba0[0] == "app" and ba0[1] == "attr:shape" and len(ba0[2]) == 1:
+                return T.app("len", T.dec(ba0[2][0]), real=True)   # x.shape[0] is len(x)
         if isinstance(base, T.Poly) and idx == REVERSE:
             ba = base.single_atom()
             if ba is not None and ba[0] == "app" and ba[1] == "getitem" and T.dec(ba[2][1]) == REVERSE:
@@ -1114,6 +1129,33 @@ class VN:
         if short == "len" and args:
             if is_tuple(a0):
                 return T.const(len(a0))
+            sl_ = seq_len(a0)
+            if sl_ is not None:
+                return sl_
+            if isP:
+                ra_ = a0.single_atom()
+                if ra_ is not None and ra_[0] == "app" and ra_[1] == "fn:sigpy.util.resize":
+                    # len(resize(x, oshape)) is oshape[0] (the result has shape oshape: rule X1 of C09)
+                    for x_ in ra_[2]:
+                        kv = T.dec(x_)
+                        ka = kv.single_atom() if isinstance(kv, T.Poly) else None
+                        if ka is not None and ka[0] == "app" and ka[1] == "kw:oshape":
+                            f0 = seq_first(T.dec(ka[2][0]))
+                            if f0 is not None:
+                                return f0
+            if isP:
+                aa = a0.single_atom()
+                if aa is not None and aa[0] == "app" and aa[1] == "attr:shape" and len(aa[2]) == 1:
+                    return T.app("attr:ndim", T.dec(aa[2][0]), real=True)          # len(x.shape) is x.ndim
+                if aa is not None and aa[0] == "app" and aa[1] == "getitem" and len(aa[2]) == 2:
+                    base, idx = T.dec(aa[2][0]), T.dec(aa[2][1])
+                    ba = base.single_atom() if isinstance(base, T.Poly) else None
+                    ia = idx.single_atom() if isinstance(idx, T.Poly) else None
+                    if ba is not None and ba[0] == "app" and ba[1] == "attr:shape" and ia is not None and ia[0] == "app" and ia[1] == "slice":
+                        lo, hi, stp = (T.dec(x) for x in ia[2])
+                        flo = lo.as_fraction() if isinstance(lo, T.Poly) else None
+                        if hi == NONE and stp == NONE and flo is not None and flo >= 0 and flo.denominator == 1:
+                            return T.sub(T.app("attr:ndim", T.dec(ba[2][0]), real=True), T.const(flo))   # len(x.shape[k:]) is x.ndim - k
             return T.app("len", self._as_term(a0), real=True)
         if short in ("list", "tuple") and args:
             # container type is irrelevant to every question asked of these terms
@@ -1547,6 +1589,57 @@ def iter_once_while(vn, s, st):
             o.events.append((o.status, None, s))
             o.status = "live"
     return outs
+
+
+def seq_len(v):
+    """length of a sequence-valued term when it follows from its construction: tuples, concatenations, repetitions, comprehensions
+    without filters, x.shape (= x.ndim) and its tail slices; None when unknown"""
+    if isinstance(v, tuple):
+        return T.const(len(v))
+    a = v.single_atom() if isinstance(v, T.Poly) else None
+    if a is None or a[0] != "app":
+        return None
+    args = [T.dec(x) for x in a[2]]
+    if a[1] == "concat":
+        tot = T.const(0)
+        for x in args:
+            n = seq_len(x)
+            if n is None:
+                return None
+            tot = T.add(tot, n)
+        return tot
+    if a[1] == "repeat" and len(args) == 2 and isinstance(args[1], T.Poly):
+        n = seq_len(args[0])
+        return None if n is None else T.mul(n, args[1])
+    if a[1] == "comp" and len(args) == 2:
+        return seq_len(args[1])
+    if a[1] == "attr:shape" and len(args) == 1:
+        return T.app("attr:ndim", args[0], real=True)
+    if a[1] == "getitem" and len(args) == 2 and isinstance(args[1], T.Poly):
+        ia = args[1].single_atom()
+        if ia is not None and ia[0] == "app" and ia[1] == "slice":
+            lo, hi, stp = (T.dec(x) for x in ia[2])
+            flo = lo.as_fraction() if isinstance(lo, T.Poly) else None
+            n = seq_len(args[0])
+            if n is not None and hi == NONE and stp == NONE and flo is not None and flo >= 0 and flo.denominator == 1:
+                return T.sub(n, T.const(flo))
+            if n is not None and idx_is_reverse(args[1]):
+                return n
+    return None
+
+
+def seq_first(v):
+    """first element of a sequence-valued term when its construction shows it"""
+    if isinstance(v, tuple):
+        return v[0] if v and isinstance(v[0], T.Poly) else None
+    a = v.single_atom() if isinstance(v, T.Poly) else None
+    if a is not None and a[0] == "app" and a[1] == "concat" and a[2]:
+        return seq_first(T.dec(a[2][0]))
+    return None
+
+
+def idx_is_reverse(i):
+    return isinstance(i, T.Poly) and i == REVERSE
 
 
 def append_loop(vn, s, st):
